@@ -165,6 +165,23 @@ Print Assumptions gc_complete.
 (* NOT PROVED YET (see docs/areas/Sched-proofs.md):
    the empty-invocation part of Spec.c06_dump; the monitor-state versions (m_syncs, m_live) of these statements. *)
 
+(* ---- position 13 of p_components (e_arm): timeouts are measured from the moment the party was last heard of ----
+   every answer of a Synchronize call leaves its worker with the removal armed at now + worker timeout
+   (sync_answer_armed), and a stream that returns and leaves its operation without waiters arms its removal at
+   now + no-waiters timeout, no other registered operation losing waiters in that event (stream_return_spec, WUb) *)
+Theorem sync_answer_armed : forall s e h, SW s -> calls_nodup s ->
+  let s' := fst (step s (e, h)) in
+  (exists x, In x (snd (step s (e, h))) /\ is_osync x = true) ->
+  exists w, sync_worker e (get_call s (ev_call e)) = Some w /\ (Pan (auto_returns (step_core e (s <| s_hints := h |> <| s_out := [] |>))) \/ armed w s').
+Proof. exact sync_answer_armed. Qed.
+Print Assumptions sync_answer_armed.
+
+Theorem monitor_arm_on_model : forall cfg t0 evs,
+  selectors_in_range (init cfg t0) evs -> fresh_calls [] evs -> bg_scripts_ok evs -> causes_ok evs ->
+  panicked (snd (run (init cfg t0) evs)) \/ trace_sub [13%nat] cfg t0 (model_trace cfg t0 evs) = true.
+Proof. exact monitor_arm_on_model. Qed.
+Print Assumptions monitor_arm_on_model.
+
 (* ---- regression: the monitor's retry bookkeeping (positions 14 and 15 of p_step) on a re-assignment to the same worker ----
    rw_evs, rw_evs2 (ProofsMonW.v): retry count 0, one size class; a worker is told to run a task, reports a failure, the
    learner asks for the retry and the same Synchronize call is handed the task again (then the worker asks once more).
